@@ -339,6 +339,31 @@ DegenGames ==
         \cup {wide(o, r) : o \in {P1, P2}, r \in {<<0, 0, 0>>, <<1, 2, 2>>, <<3, 1, 2>>}}
         \cup {three(o, fin) : o \in {P1, P2, PR}, fin \in {<<2, 4, 5>>, <<5, 2, 4>>, <<4, 2>>, <<2, 2, 4>>}}
 
+(* Jump1: a maximiser whose estimate rests at the value of a quick coin flip  *)
+(* for some sweeps and then JUMPS to exactly 1 when a sure route, explored     *)
+(* one link per sweep against the numbering, finally connects -- in a sweep    *)
+(* in which nothing else moves, while a lower-numbered state still holds the   *)
+(* old value.                                                                  *)
+(*   1 -> 2 ; 2 chooser: safe -> 3 .. (chain of L single-action states) -> win *)
+(*   risky -> coin (L+3) ; L+4 lose ; L+5 win                                  *)
+Jump1Games ==
+    LET mk(L, o0, oc, w) ==
+          LET n == L + 5  coin == L + 3  lose == L + 4  win == L + 5
+          IN  [n |-> n,
+               owner  |-> [s \in 1..n |-> IF s = 1 THEN o0 ELSE IF s = 2 THEN P1
+                                           ELSE IF s \in 3..(L + 2) THEN oc ELSE PR],
+               reward |-> [s \in 1..n |-> 0],
+               tr |-> [s \in 1..n |->
+                         IF s = 1 THEN (IF o0 = PR THEN <<Tr("", 1, 2)>> ELSE <<Tr("go", 0, 2)>>)
+                         ELSE IF s = 2 THEN <<Tr("safe", 0, 3), Tr("risky", 0, coin)>>
+                         ELSE IF s \in 3..(L + 2)
+                              THEN (IF oc = PR THEN <<Tr("", 1, IF s = L + 2 THEN win ELSE s + 1)>>
+                                    ELSE <<Tr("x", 0, IF s = L + 2 THEN win ELSE s + 1)>>)
+                         ELSE IF s = coin THEN <<Tr("", w, win), Tr("", 4 - w, lose)>>
+                         ELSE IF s = lose THEN <<Tr("", 1, lose)>> ELSE <<Tr("", 1, win)>>],
+               final |-> <<win>>]
+    IN  { mk(L, o0, oc, w) : L \in 2..5, o0 \in {P1, P2, PR}, oc \in {P1, P2, PR}, w \in {1, 2, 3} }
+
 (* ZeroW: probabilistic transitions of weight 0 (never taken, but present):  *)
 (* into dead states, into the final state, next to live ones.                *)
 (*   1 chooser ; 2 chance with a zero-weight edge ; 3 live ; 4 dead ; 5 lose ; 6 win *)
